@@ -33,7 +33,7 @@ def gen_plan(rng, tier, index):
     kind = rng.pick(['fixed', 'weighted'])
     theta = [rng.pick([0.5, 1.0, 2.0, 3.0]), rng.pick([0.0, 0.5, 1.0])] if kind == 'weighted' else None
     n_part = rng.randint(1, 4)
-    design = rng.pick(['make_design', 'shuffled', 'relabelled', 'matrix', 'shuffled_relabelled'])
+    design = rng.pick(['make_design', 'shuffled', 'relabelled', 'matrix', 'shuffled_relabelled', 'matrix_mixed'])
     n_ch = nc + rng.pick([0, 0, 1, 3, 10]) if rng.chance(0.92) else max(1, nc - rng.randint(1, 2))
     plan = {'n_cond': nc, 'points': pts, 'kind': kind, 'theta': theta, 'n_part': n_part, 'design': design,
             'perm_seed': rng.randrange(10 ** 6), 'labels': sorted(rng.sample(range(0, 40), nc)),
@@ -115,9 +115,30 @@ def _design(plan):
     if plan['design'] in ('relabelled', 'shuffled_relabelled'):
         labels = np.array(plan['labels'], dtype=float)   # increasing, so the k-th smallest label is model condition k
         cv = labels[cidx]
-    if plan['design'] == 'matrix':
+    if plan['design'] in ('matrix', 'matrix_mixed'):
         Z = np.zeros((len(cidx), nc))
         Z[np.arange(len(cidx)), cidx] = 1
+        if plan['design'] == 'matrix_mixed' and nc >= 2:
+            # an explicit design matrix that is no indicator matrix: compound trials (two conditions active), a weighted
+            # trial and a null trial, interleaved with the one-hot rows (which keep the matrix of full column rank)
+            rows, idx = [], []
+            extra = r.randint(1, 4)
+            for k in range(extra):
+                a, b = r.sample(range(nc), 2)
+                z = np.zeros(nc)
+                mode = r.randrange(3)
+                if mode == 0:
+                    z[a] = z[b] = 1.0
+                elif mode == 1:
+                    z[a], z[b] = 0.5, 1.5
+                rows.append(z)
+                idx.append(-1)
+            pos = sorted(r.sample(range(len(cidx) + extra), extra))
+            Zl, cl = list(Z), list(cidx)
+            for p_, z, i_ in zip(pos, rows, idx):
+                Zl.insert(p_, z)
+                cl.insert(p_, i_)
+            Z, cidx = np.array(Zl), np.array(cl)
         return Z, cidx, labels, (cond_vec, part_vec)
     return cv, cidx, labels, (cond_vec, part_vec)
 
@@ -178,8 +199,11 @@ def _g_tag(pred):
     return ''
 
 
-def _rdm_from_data(meas, cidx, nc):
-    means = np.array([meas[cidx == k].mean(axis=0) for k in range(nc)])
+def _rdm_from_data(meas, cidx, nc, Z=None):
+    if Z is not None:
+        means = np.linalg.lstsq(Z, meas, rcond=None)[0]      # condition patterns under an explicit design matrix
+    else:
+        means = np.array([meas[cidx == k].mean(axis=0) for k in range(nc)])
     return _sqdist(means) / meas.shape[1]
 
 
@@ -297,11 +321,22 @@ def execute(plan, ctx):
                                   f'default (fresh signal): simulation {s} has the same signal as simulation 0 although the served draws differ')
                     return
             ctx.probe('fresh_signal_checked')
+    if plan['design'] == 'matrix_mixed':
+        # data = Z U sqrt(signal) + noise: the signal term of every observation is its design row times the condition patterns
+        for s in range(n_sim):
+            U = np.linalg.lstsq(cv, sig_terms[s], rcond=None)[0]
+            res = float(np.max(np.abs(cv @ U - sig_terms[s])))
+            if res > 1e-7 * scale * (1 + float(np.sqrt(max(plan['noise'], 1))) * 6):
+                ctx.violation('sim_ref.clause4', 'make_dataset:design-matrix:signal-not-ZU',
+                              f'simulation {s}: explicit design matrix with compound/weighted/null trials: the signal term is not '
+                              f'the design matrix times one set of condition patterns (residual {res})')
+                return
+        ctx.probe('design_matrix_rows_checked')
     # ---- clause 1: exact signal -> RDM of the signal term equals signal * model RDM
     if plan['use_exact_signal']:
         exp = plan['signal'] * pred
         for s in range(n_sim):
-            got = _rdm_from_data(sig_terms[s], cidx, nc)
+            got = _rdm_from_data(sig_terms[s], cidx, nc, Z=cv if plan['design'] == 'matrix_mixed' else None)
             err = float(np.max(np.abs(got - exp)))
             if err > tol * scale:
                 ctx.violation('sim_ref.clause1', 'make_dataset:exact-rdm' + _g_tag(pred),
@@ -311,7 +346,7 @@ def execute(plan, ctx):
                 return
         ctx.probe('exact_rdm_checked')
         r = None
-        if plan['noise'] == 0 and plan['design'] != 'matrix':
+        if plan['noise'] == 0 and plan['design'] not in ('matrix', 'matrix_mixed'):
             from rsatoolbox.rdm import calc_rdm
             try:
                 r = calc_rdm(ds[0], method='euclidean', descriptor='cond_vec')
@@ -320,7 +355,7 @@ def execute(plan, ctx):
                 # (theta of a weighted model) -- observed, not judged here
                 ctx.probe('calc_rdm_failed_not_judged')
                 r = None
-        if plan['noise'] == 0 and plan['design'] != 'matrix' and r is not None:
+        if plan['noise'] == 0 and plan['design'] not in ('matrix', 'matrix_mixed') and r is not None:
             lab = np.asarray(r.pattern_descriptors['cond_vec'], dtype=float)
             mat = r.get_matrices()[0]
             for i in range(nc):
